@@ -8,3 +8,53 @@ job('enc.fp32', ['C11', 'C12', 'C15'], 'u_enc', 'proofs/enc/fp.c',
     roots={'ENC_F32': r'encode_floating_point<unsigned int, float>', 'DEC_F32': r'decode_floating_point<float, unsigned int>'},
     under_contract=['unodb::detail::encode_floating_point<uint32_t,float>', 'unodb::detail::decode_floating_point<float,uint32_t>'],
     replay='replay/enc.cpp', floor=4, timeout=300)
+for bits, cxx in ((8, 'unsigned char'), (16, 'unsigned short'), (32, 'unsigned int'), (64, 'unsigned long')):
+    job('enc.u%d.dfcc' % bits, ['C11', 'C12'], 'u_enc', 'proofs/enc/int_dfcc.c', defines=['NBYTES=%d' % (bits // 8)],
+        roots={'FN': r'key_encoder::encode\(%s\)' % cxx}, dfcc={'enforce': 'FN'},
+        under_contract=['unodb::key_encoder::encode(uint%d_t)' % bits], floor=10, timeout=300)
+job('enc.text', ['C15', 'C11', 'C12'], 'u_enc', 'proofs/enc/text.c', roots={'ENC_TEXT': r'key_encoder::encode_text\(std::span'}, stubs={'ENSURE_AVAILABLE': r'key_encoder::ensure_available\('},
+    under_contract=['unodb::key_encoder::encode_text(std::span<const std::byte>)', 'unodb::key_encoder::append_bytes', 'unodb::key_encoder::encode(uint8_t)', 'unodb::key_encoder::encode(uint16_t)'],
+    trusted=['memcpy of symbolic length: witness-only pointwise contract (regions checked readable/writable, d[W] = s[W])'],
+    floor=100, timeout=900, mem_gb=16)
+job('enc.ensure_available', ['C12', 'C15', 'C11'], 'u_enc', 'proofs/enc/ensure_available.c', roots={'ENSURE_AVAILABLE': r'key_encoder::ensure_available\('},
+    under_contract=['unodb::key_encoder::ensure_available', 'unodb::key_encoder::ensure_capacity', 'unodb::detail::ensure_capacity', 'unodb::detail::allocate_aligned', 'unodb::detail::free_aligned'],
+    trusted=['memcpy of symbolic length: witness-only pointwise contract (regions checked readable/writable, d[W] = s[W])'], floor=50, timeout=600)
+RT = [('i8', 'signed char', 1, 'int8_t', 'uint8_t', 'nondet_u8', '(a < b)', False), ('i16', 'short', 2, 'int16_t', 'uint16_t', 'nondet_u16', '(a < b)', False),
+      ('i32', 'int', 4, 'int32_t', 'uint32_t', 'nondet_u32', '(a < b)', False), ('i64', 'long', 8, 'int64_t', 'uint64_t', 'nondet_u64', '(a < b)', False),
+      ('u8', 'unsigned char', 1, 'uint8_t', 'uint8_t', 'nondet_u8', '(a < b)', False), ('u16', 'unsigned short', 2, 'uint16_t', 'uint16_t', 'nondet_u16', '(a < b)', False),
+      ('u32', 'unsigned int', 4, 'uint32_t', 'uint32_t', 'nondet_u32', '(a < b)', False), ('u64', 'unsigned long', 8, 'uint64_t', 'uint64_t', 'nondet_u64', '(a < b)', False),
+      ('f32', 'float', 4, 'float', 'uint32_t', 'nondet_float', 'spec_lt_f32(a, b)', True), ('f64', 'double', 8, 'double', 'uint64_t', 'nondet_double', 'spec_lt_f64(a, b)', True)]
+for nm, cxx, nb, ty, uty, nd, lt, isfp in RT:
+    job('enc.roundtrip.' + nm, ['C12', 'C11', 'C15'], 'u_enc', 'proofs/enc/roundtrip.c',
+        defines=['NB=%d' % nb, 'TY=%s' % ty, 'UTY=%s' % uty, 'NONDET=(%s)%s' % (ty, nd), 'LT(a,b)=%s' % lt] + (['ISFP', 'QNAN=%s' % ('SPEC_QNAN32' if nb == 4 else 'SPEC_QNAN64')] if isfp else []),
+        roots={'ENC': r'key_encoder::encode\(%s\)' % cxx, 'DECODE': r'key_decoder::decode\(%s&\)' % cxx, 'CTOR': r'key_encoder::key_encoder\(\)',
+               'GKV': r'key_encoder::get_key_view\(\) const', 'DCTOR': r'key_decoder::key_decoder\(std::span'},
+        under_contract=['unodb::key_encoder::encode(%s)' % cxx, 'unodb::key_decoder::decode(%s&)' % cxx, 'unodb::key_encoder::key_encoder()', 'unodb::key_encoder::get_key_view()', 'unodb::key_decoder::key_decoder(key_view)'],
+        replay='replay/enc.cpp', floor=20, timeout=600)
+for lem in ('lemma_equal', 'lemma_prefix_free', 'lemma_order', 'lemma_concat'):
+    job('enc.text.' + lem, ['C11', 'C15'], 'u_enc', 'proofs/enc/text_lemmas.c', entry=lem, roots={}, floor=1, timeout=300,
+        under_contract=['lemma over the contract of key_encoder::encode_text: ' + lem],
+        trusted=['existence of a first-difference index for two different byte strings (well-ordering), list induction over the component schema'])
+job('enc.compare', ['C11', 'C02'], 'u_enc', 'proofs/enc/compare.c', roots={'COMPARE': r'^unodb::detail::compare\(std::span'},
+    under_contract=['unodb::detail::compare(key_view, key_view)', 'unodb::detail::compare(const void*, size_t, const void*, size_t)'],
+    trusted=['memcmp: libc contract stated over the ghost first-difference index'], floor=10, timeout=300)
+for bits, cxx in ((8, 'unsigned char'), (16, 'unsigned short'), (32, 'unsigned int'), (64, 'unsigned long')):
+    job('enc.u%d.any' % bits, ['C12', 'C11'], 'u_enc', 'proofs/enc/int_any.c', defines=['NB=%d' % (bits // 8)],
+        roots={'ENC': r'key_encoder::encode\(%s\)' % cxx}, stubs={'ENSURE_AVAILABLE': r'key_encoder::ensure_available\('},
+        under_contract=['unodb::key_encoder::encode(uint%d_t) from any valid state' % bits], floor=10, timeout=600, unwind=10)
+DEL = [('i8', 'signed char', 'unsigned char', 'int8_t', '(int8_t)nondet_u8', 'spec_rank_i8(v)', {}), ('i16', 'short', 'unsigned short', 'int16_t', '(int16_t)nondet_u16', 'spec_rank_i16(v)', {}),
+       ('i32', 'int', 'unsigned int', 'int32_t', '(int32_t)nondet_u32', 'spec_rank_i32(v)', {}), ('i64', 'long', 'unsigned long', 'int64_t', '(int64_t)nondet_u64', 'spec_rank_i64(v)', {}),
+       ('f32', 'float', 'unsigned int', 'float', 'nondet_float', 'FPKEY(v)', {'FPKEY': r'encode_floating_point<unsigned int, float>'}),
+       ('f64', 'double', 'unsigned long', 'double', 'nondet_double', 'FPKEY(v)', {'FPKEY': r'encode_floating_point<unsigned long, double>'})]
+for nm, cxx, ucxx, ty, nd, spec, extra in DEL:
+    roots = {'ENC': r'key_encoder::encode\(%s\)' % cxx}; roots.update(extra)
+    job('enc.%s.delegates' % nm, ['C11', 'C12'], 'u_enc', 'proofs/enc/delegate.c', defines=['TY=%s' % ty, 'NONDET=%s' % nd, 'SPECVAL=%s' % spec],
+        roots=roots, stubs={'CALLEE': r'key_encoder::encode\(%s\)' % ucxx},
+        under_contract=['unodb::key_encoder::encode(%s)' % cxx], floor=5, timeout=300)
+job('enc.reset', ['C12'], 'u_enc', 'proofs/enc/misc.c', defines=['M_RESET'], roots={'RESET': r'key_encoder::reset\('}, under_contract=['unodb::key_encoder::reset'], floor=3)
+job('enc.dtor', ['C12'], 'u_enc', 'proofs/enc/misc.c', defines=['M_DTOR'], roots={'DTOR': r'key_encoder::~key_encoder\('}, under_contract=['unodb::key_encoder::~key_encoder'], floor=3)
+job('enc.text_sv', ['C15', 'C11'], 'u_enc', 'proofs/enc/misc.c', defines=['M_TEXTSV'], roots={'ENC_TEXT_SV': r'key_encoder::encode_text\(std::basic_string_view'},
+    stubs={'ENC_TEXT': r'key_encoder::encode_text\(std::span'}, under_contract=['unodb::key_encoder::encode_text(std::string_view)'], floor=3)
+job('enc.append', ['C12', 'C15'], 'u_enc', 'proofs/enc/misc.c', defines=['M_APPEND'], roots={'APPEND': r'key_encoder::append_bytes\('},
+    stubs={'ENSURE_AVAILABLE': r'key_encoder::ensure_available\('}, under_contract=['unodb::key_encoder::append_bytes'], floor=10,
+    trusted=['memcpy of symbolic length: witness-only pointwise contract (regions checked readable/writable, d[W] = s[W])'])
